@@ -48,3 +48,82 @@ func VerifC08Header() {
 	}
 	vrt.Cover("end")
 }
+
+// sliceReader delivers a byte slice through io.Reader in fragments of at most frag bytes.
+type sliceReader struct {
+	b    []byte
+	frag int
+}
+
+func (r *sliceReader) Read(p []byte) (int, error) {
+	if len(r.b) == 0 {
+		return 0, errEOFVerif
+	}
+	n := len(p)
+	if n > len(r.b) {
+		n = len(r.b)
+	}
+	if r.frag > 0 && n > r.frag {
+		n = r.frag
+	}
+	copy(p, r.b[:n])
+	r.b = r.b[n:]
+	return n, nil
+}
+
+type verifErr struct{ s string }
+
+func (e *verifErr) Error() string { return e.s }
+
+var errEOFVerif = &verifErr{"verif EOF"}
+
+// VerifC08Divide: message2Chunks for a symbolic message of len bytes at chunk size cs,
+// read back by the reference reader and by lal's own ChunkComposer.
+func VerifC08Divide() {
+	n := vrt.Param("len")
+	cs := vrt.Param("cs")
+	h := c08Header()
+	vrt.Assume(h.MsgLen == uint32(n))
+	payload := vrt.Bytes("payload", n)
+	out := message2Chunks(payload, &h, nil, cs)
+
+	// (i) reference reader
+	r := &refChunkReader{chunkSize: cs}
+	ok := r.readAll(out)
+	vrt.Assert(ok, "reference reader parses the whole output")
+	vrt.Assert(len(r.out) == 1, "reference reader yields exactly one message")
+	if len(r.out) == 1 {
+		m := r.out[0]
+		vrt.Assert(m.csid == h.Csid && m.typ == h.MsgTypeId && m.msid == uint32(h.MsgStreamId) && m.length == h.MsgLen, "ref: header fields")
+		vrt.Assert(m.ts == h.TimestampAbs, "ref: absolute timestamp")
+		vrt.Assert(len(m.payload) == n, "ref: payload length")
+		for i := 0; i < n && i < len(m.payload); i++ {
+			vrt.Assert(m.payload[i] == payload[i], "ref: payload bytes")
+		}
+	}
+
+	// (ii) lal's own reader (an aggregate message is split into sub-messages by design: see VerifC08Compose)
+	if h.MsgTypeId == base.RtmpTypeIdAggregateMessage {
+		vrt.Cover("end")
+		return
+	}
+	c := NewChunkComposer()
+	c.SetPeerChunkSize(uint32(cs))
+	got := 0
+	rd := &sliceReader{b: out, frag: vrt.Param("frag")}
+	err := c.RunLoop(rd, func(stream *Stream) error {
+		got++
+		vrt.Assert(stream.header.Csid == h.Csid && stream.header.MsgTypeId == h.MsgTypeId && stream.header.MsgStreamId == int(uint32(h.MsgStreamId)) && stream.header.MsgLen == h.MsgLen, "lal: header fields")
+		vrt.Assert(stream.header.TimestampAbs == h.TimestampAbs, "lal: absolute timestamp")
+		p := stream.msg.buff.Bytes()
+		vrt.Assert(len(p) == n, "lal: payload length")
+		for i := 0; i < n && i < len(p); i++ {
+			vrt.Assert(p[i] == payload[i], "lal: payload bytes")
+		}
+		return nil
+	})
+	vrt.Assert(err == errEOFVerif, "lal: reader stops only at end of input")
+	vrt.Assert(len(rd.b) == 0, "lal: reader consumes exactly the produced bytes")
+	vrt.Assert(got == 1, "lal: exactly one message")
+	vrt.Cover("end")
+}
